@@ -22,6 +22,8 @@ type Mapper interface {
 	NewBatch(n int, vals []uint64, rels []ecs.Relation)
 	NewBatchFn(n int, fn PtrFn, rels []ecs.Relation)
 	Get(e ecs.Entity) []unsafe.Pointer
+	GetUnchecked(e ecs.Entity) []unsafe.Pointer
+	GetRelationUnchecked(e ecs.Entity, idx int) ecs.Entity
 	HasAll(e ecs.Entity) bool
 	Add(e ecs.Entity, vals []uint64, rels []ecs.Relation)
 	AddFn(e ecs.Entity, fn PtrFn, rels []ecs.Relation)
@@ -142,7 +144,13 @@ func (a *mapSingle[A]) NewBatchFn(n int, fn PtrFn, _ []ecs.Relation) {
 func (a *mapSingle[A]) Get(e ecs.Entity) []unsafe.Pointer {
 	return []unsafe.Pointer{unsafe.Pointer(a.m.Get(e))}
 }
-func (a *mapSingle[A]) HasAll(e ecs.Entity) bool { return a.m.Has(e) }
+func (a *mapSingle[A]) GetUnchecked(e ecs.Entity) []unsafe.Pointer {
+	return []unsafe.Pointer{unsafe.Pointer(a.m.GetUnchecked(e))}
+}
+func (a *mapSingle[A]) GetRelationUnchecked(e ecs.Entity, _ int) ecs.Entity {
+	return a.m.GetRelationUnchecked(e)
+}
+func (a *mapSingle[A]) HasAll(e ecs.Entity) bool { return a.m.Has(e) && a.m.HasUnchecked(e) }
 func (a *mapSingle[A]) Add(e ecs.Entity, vals []uint64, _ []ecs.Relation) {
 	a.m.Add(e, a.val(vals[0]), singleTargets...)
 }
